@@ -41,6 +41,11 @@ CHECKS = {
     text="Two-branch block universes over a 5-transaction universe (in-block chains, the same tx re-committed across the fork, conflicting spends of a cell created on both branches, uncles, forks straddling the epoch boundary) are generated exhaustively within the bound; every topological interleaving of the branches (with a truncation at every position for the designed universes) is executed on a fresh real node; after every step all canonical columns of the store and of the published snapshot are compared byte-for-byte with an independent from-genesis replay, and the final state with a node that only saw the final main chain.",
     note="Trusted: flat-difficulty world, always-success scripts, RefChain (plain maps + molecule encoders + external MMR library), RocksDB; received_at masked; cycles compared differentially.",
     design="DESIGN.md §5 C02"),
+ "C05": dict(engine="seq", category="model_checking",
+    technique="exhaustive enumeration of chunk boundaries (every first split point of small programs, uniform step sizes, pairs of splits, every budget around the exact cost) on the real VM scheduler, compared with the un-chunked run of the same resolved transaction",
+    text="For 38 (program, VM version) pairs from script/testdata (always_success/failure on v0-2, current_cycles, exec from cell data / witness, infinite exec, spawn_cases 1..19 with pipes/wait/inherited fds, spawn+exec, spawn out-of-cycles) the run is cut at every cycle s in [1,T) when T-1 fits the run budget (6 500 quick / 130 000 thorough; else dense head and tail plus an odd stride) and continued by complete and by resume_from_state; executed in uniform chunks for a ladder of step sizes and every tiny step size; cut twice on a grid; and given every total budget in [T-150, T+150] (600 thorough). Verdict and total cycles must equal verify() of the same transaction; budgets below the cost must report the cycle limit; non-terminating programs must never complete.",
+    note="Trusted: the testdata binaries; ckb-vm itself. The signal-driven path (resumable_verify_with_signal) is not driven. One defect is listed as a known finding (spawn/pipe programs report a deadlock when a chunk limit falls on an IO syscall).",
+    design="DESIGN.md §5 C05"),
  "C07": dict(engine="seq", category="exploration",
     technique="exhaustive enumeration of finite boundary lattices of the pure consensus arithmetic (all 2^32 compact values in thorough), judged by an exact big-integer reference of the RFC formulas",
     text="next_epoch_ext is evaluated on the complete cartesian grid of epoch statistics placed on every clamp / truncation boundary (length, uncle count, duration incl. sub-second, difficulty up to 2^200, previous hash rate around both factor-two clamps) and compared with the RFC 0020 formula in exact rational arithmetic (length bounds, difficulty, adjusted hash rate, chaining). Block rewards are summed for every epoch length 1..1800 x reward schedule x every block index, the halving schedule for 70 halvings; the EpochNumberWithFraction successor relation on all small values; compact/target/difficulty laws on 256 exponents x 11 mantissas (quick) or all 2^32 compact values (thorough); Eaglesong acceptance against an independent comparison.",
